@@ -994,6 +994,16 @@ namespace awkward {
       return rpad_axis0(target, false);
     }
     else if (posaxis == depth + 1) {
+      if (parameter_equals("__array__", "\"string\"")  ||
+          parameter_equals("__array__", "\"bytestring\"")) {
+        throw std::invalid_argument(
+          std::string("axis exceeds the depth of this array (strings are not padded "
+                      "character by character)") + FILENAME(__LINE__));
+      }
+      if (length() != 0  &&  target > kMaxInt64 / 8 / length()) {
+        throw std::invalid_argument(
+          std::string("pad target is too large") + FILENAME(__LINE__));
+      }
       if (target < size_) {
         return shallow_copy();
       }
@@ -1020,6 +1030,20 @@ namespace awkward {
       return rpad_axis0(target, true);
     }
     else if (posaxis == depth + 1) {
+      if (parameter_equals("__array__", "\"string\"")  ||
+          parameter_equals("__array__", "\"bytestring\"")) {
+        throw std::invalid_argument(
+          std::string("axis exceeds the depth of this array (strings are not padded "
+                      "character by character)") + FILENAME(__LINE__));
+      }
+      if (target < 0) {
+        throw std::invalid_argument(
+          std::string("pad target must not be negative") + FILENAME(__LINE__));
+      }
+      if (length() != 0  &&  target > kMaxInt64 / 8 / length()) {
+        throw std::invalid_argument(
+          std::string("pad target is too large") + FILENAME(__LINE__));
+      }
       Index64 index(length() * target);
       struct Error err = kernel::RegularArray_rpad_and_clip_axis1_64(
         kernel::lib::cpu,   // DERIVE
